@@ -1,25 +1,34 @@
 ------------------------------ MODULE TMStateSyncOps ------------------------------
-(* State sync of tendermint v0.34: statesync/syncer.go (SyncAny, Sync, offerSnapshot,
-   applyChunks, fetchChunks, requestChunk, verifyApp), statesync/chunks.go (chunkQueue),
-   statesync/snapshots.go (snapshotPool) and the StateProvider contract of
-   statesync/stateprovider.go.
+(* State sync of tendermint v0.34, as pure operators (values in, values out):
+   statesync/snapshots.go (snapshotPool: Add, Ranked/Best, GetPeers, Reject, RejectFormat,
+   RejectPeer, RemovePeer), statesync/chunks.go (chunkQueue: Add, Allocate, Discard,
+   DiscardSender, Next in its two critical sections, Retry, RetryAll, Close),
+   statesync/syncer.go (SyncAny, Sync, offerSnapshot, applyChunks, verifyApp, fetchChunks,
+   requestChunk) and the StateProvider contract of statesync/stateprovider.go.
 
-   One applier (the goroutine that runs SyncAny) is modelled as a program counter machine
-   with ONE action per lock acquisition / external call, so that environment events
-   (snapshot advertisements, peer removal, chunk arrival in any order, duplicates, late
-   chunks, chunks from rejected peers) can fall between any two of them.  Fetcher
-   goroutines are abstracted to the set of indices some live fetcher is responsible for
-   (ft.want) plus the cancelled-fetcher quirk (ft.stale, see StaleFetch).
+   The applier (the goroutine that runs SyncAny) is a program counter machine with ONE step
+   per lock acquisition / external call (XPick ... XAfterSync), so that environment events
+   (advertisements, peer removal, chunk arrival in any order, duplicates, late chunks,
+   chunks from rejected peers) can fall between any two of them.  Fetcher goroutines are
+   abstracted to the set of indices some live fetcher is responsible for (ft.want) plus
+   the cancelled-fetcher quirk (ft.stale, XStaleFetch).
 
-   The application is a verdict script chosen by TLC at every call; the state provider
-   answers with the light-verified values TAppHash/TState/TCommit (functions of the
-   height only, disjoint from anything a snapshot peer can claim) or fails.
+   The application is a verdict script; the state provider answers with the light-verified
+   values TAppHash / TState / TCommit (functions of the height only, disjoint from anything
+   a snapshot peer can claim) or fails.  SPAppHashOf / SPStateOf / SPCommitOf say from which
+   verified blocks the real lightClientStateProvider must take them.
 
-   The operators in the first half are pure (values in, values out); the design actions
-   below and the trace specification spec/trace/TMStateSyncTrace.tla both use them.
+   Properties are the *Ok predicates, evaluated at the step that could break them; the
+   design state machine (TMStateSync.tla) accumulates the names of broken ones in gh.bad
+   (history free), the trace specification (trace/TMStateSyncTrace.tla) evaluates the same
+   predicates on the calls OBSERVED on the real code.
 
-   Properties are evaluated by the *Ok predicates at the step that could break them; the
-   design spec accumulates the names of broken ones in gh.bad (history free).           *)
+   Deviations of the code that are modelled on purpose (named where they occur):
+   chunkReturned is set before Next() waits (XNext); a cancelled fetcher allocates once
+   more (XStaleFetch); retry / retry_snapshot re-apply stored chunks of a sender that was
+   rejected meanwhile (SenderFreshOk).  The code as repaired by
+   proposed-fixes/C14-reject-late-chunks-from-rejected-sender.diff is the default
+   (Fix_DropRejectedSenderChunks = TRUE); the old behaviour is a weakened config.         *)
 EXTENDS Integers, Sequences, FiniteSets, TLC
 
 CONSTANTS
